@@ -19,7 +19,7 @@ use ql::items::{Out, Pk, Sess};
 use ql::val::{inj, retain};
 
 fn is_mutation(op: &Op) -> bool {
-    matches!(op, Op::Set(..) | Op::SetD(..) | Op::Syn(_) | Op::SetExtSyn(..) | Op::Swap(_) | Op::LruCap(_) | Op::LruTrig | Op::Cancel | Op::RoundTrip)
+    matches!(op, Op::Set(..) | Op::SetD(..) | Op::Syn(_) | Op::SetExtSyn(..) | Op::Swap(_) | Op::LruCap(_) | Op::MkLruCap(_) | Op::LruTrig | Op::Cancel | Op::RoundTrip)
 }
 
 type V3 = (String, String, usize);
